@@ -733,6 +733,15 @@ void Exec::compare_client(int ci) {
             if (why.compare(0, 4, "C03:") == 0) sender_issue = true;
           }
         }
+      if (hit >= 0 && g.items[(size_t)hit].optional && (g.items[(size_t)hit].any_reply_serial || g.items[(size_t)hit].any_destination) && required_left == 0) {
+        // a loosely specified optional item of this group (any reply serial / any destination) fits, but so may a REQUIRED item of a later group (e.g. an admissible
+        // "refusal" copy vs. the copy a monitor must get of a later error): the required one has the better claim
+        std::string w2;
+        bool later_required = false;
+        for (size_t gi = 1; gi < q.size() && gi < 6 && !later_required; gi++)
+          for (auto &e2 : q[gi].items) if (!e2.optional && bm::satisfies(md, e2, o, &w2)) { later_required = true; break; }
+        if (later_required) break;
+      }
       if (hit < 0 && take_floating(ci, o)) { cur++; continue; }
       if (hit < 0) {
         if (required_left == 0) break;   // o belongs to a later group
